@@ -1,26 +1,17 @@
 (** Inst_Params.v -- instance obligations for the constants regenerated from
-    /repo on every run (gen/GenParams.v): the theorems are stated for every
-    configuration with a positive expiration time (and, where the timer
-    matters, a positive period smaller than the expiration time); here the
-    actual constants are checked to satisfy those side conditions. *)
+    /repo on every run (gen/GenParams.v).  The theorems are stated for every
+    configuration with a positive expiration time (and a positive period where the
+    timer matters); here the actual constants are checked.  (The relation between
+    the two -- "expiration must exceed the period" -- concerns C12/C13 only and
+    lives in Inst_Timer.v.) *)
 From MW Require Import Base Store Monad.
 From MWGen Require Import GenParams.
 
-Definition params_ok (e p : Z) : bool := (0 <? p) && (p <? e).
-
-Lemma gen_params_ok : params_ok gen_exp gen_period = true.
+Lemma gen_exp_pos : 0 < gen_exp.
 Proof. vm_compute. reflexivity. Qed.
 
-Lemma gen_exp_pos : 0 < gen_exp.
-Proof. pose proof gen_params_ok as H. unfold params_ok in H. apply andb_true_iff in H. destruct H as [H1 H2].
-       apply Z.ltb_lt in H1. apply Z.ltb_lt in H2. lia. Qed.
 Lemma gen_period_pos : 0 < gen_period.
-Proof. pose proof gen_params_ok as H. unfold params_ok in H. apply andb_true_iff in H. destruct H as [H1 _].
-       now apply Z.ltb_lt in H1. Qed.
-(** "expiration must exceed the period" (server_tap.py) *)
-Lemma gen_period_lt_exp : gen_period < gen_exp.
-Proof. pose proof gen_params_ok as H. unfold params_ok in H. apply andb_true_iff in H. destruct H as [_ H2].
-       now apply Z.ltb_lt in H2. Qed.
+Proof. vm_compute. reflexivity. Qed.
 
 (** the configurations of the real server: any listing / usage / blur setting
     with the repository's constants *)
